@@ -155,11 +155,76 @@ func checkC06(w *World, r *Report) {
 	r.Rule("R06.7", "a closure that outlives the call that created it (instructions, wrappers put into the function table, matchers) never writes a variable captured from that call's frame: such a variable would be one cell shared by all invocations", 1)
 	r.guard("R06.7", func() { c06CapturedWrites(w, r) })
 
+	r.Rule("R06.8", "the path stack of a run holds only paths the run owns: every value handed to PathStack.PushPath is freshly built (&sdcpb.Path{}, possibly through a builder method on it) or a DeepCopy — never a path object obtained from the tree, which the following steps would extend in place for every later and every concurrent run", 4)
+	r.guard("R06.8", func() { c06OwnedPaths(w, r) })
+
 	r.Rule("R06.4", "generated parsers are re-entrant: each <p>Parse allocates its parser state per call", 3)
 	r.guard("R06.4", func() { c06Reentrant(w, r) })
 
 	r.Rule("R06.5", "per-run state is fresh: the context constructors allocate the Result, path stack and predicate stack per call and share only the program and strings with the machine", 2)
 	r.guard("R06.5", func() { c06FreshContext(w, r) })
+}
+
+// c06OwnedPaths (R06.8): what reaches PathStack.PushPath.
+func c06OwnedPaths(w *World, r *Report) {
+	push := w.Method("xpath", "PathStack", "PushPath")
+	var owned func(v ssa.Value, d int) (bool, string)
+	owned = func(v ssa.Value, d int) (bool, string) {
+		if d > 6 {
+			return false, "too deep"
+		}
+		switch x := v.(type) {
+		case *ssa.Alloc:
+			return true, "fresh"
+		case *ssa.Call:
+			c := x.Call
+			name := ""
+			if c.IsInvoke() {
+				name = c.Method.Name()
+			} else if sc := c.StaticCallee(); sc != nil {
+				name = sc.Name()
+			}
+			if name == "DeepCopy" {
+				return true, "copy"
+			}
+			// builder method on an owned receiver that returns the receiver's type
+			if !c.IsInvoke() && c.StaticCallee() != nil && c.Signature().Recv() != nil && len(c.Args) > 0 && c.Signature().Results().Len() == 1 &&
+				types.Identical(c.Signature().Results().At(0).Type(), c.Signature().Recv().Type()) {
+				if ok, how := owned(c.Args[0], d+1); ok {
+					return true, how + " via " + name
+				}
+			}
+			return false, "result of " + name + "()"
+		case *ssa.Phi:
+			for _, e := range x.Edges {
+				if ok, how := owned(e, d+1); !ok {
+					return false, how
+				}
+			}
+			return true, "fresh/copy on every edge"
+		}
+		return false, fmt.Sprintf("%T", v)
+	}
+	n := 0
+	for _, key := range []string{"xpath"} {
+		sp := w.SSAPkg(key)
+		for _, fn := range allFuncs(sp) {
+			for _, b := range fn.Blocks {
+				for _, in := range b.Instrs {
+					ci, ok := in.(ssa.CallInstruction)
+					if !ok || ci.Common().StaticCallee() == nil || ci.Common().StaticCallee().Object() != push {
+						continue
+					}
+					n++
+					ok2, how := owned(ci.Common().Args[1], 0)
+					r.Check(ok2, "R06.8", fn.String()+": PushPath("+w.ExprNear(ci.Pos())+")", ci.Pos(), how, "a path that is "+how+" is put on the run's path stack: the steps after it append to that object, so an Entry that returns its stored path has it grow with every run (deref(a)/../b navigates target/../b, then target/../b/../b) and concurrent runs race on it")
+				}
+			}
+		}
+	}
+	if n == 0 {
+		panic(undecided{"no call of PathStack.PushPath"})
+	}
 }
 
 func namedStructOf(t types.Type) string {
